@@ -38,7 +38,9 @@ Is(name) == l <= Len(Rec) /\ Cur.ev = name
 Begin == /\ Is("begin") /\ l' = l + 1 /\ e' = [ev |-> "begin", id |-> 0, line |-> 0]
          /\ st' = [i \in Ids |-> NoInst] /\ scr' = Cur.script
 
-Skip == /\ (Is("end") \/ Is("note")) /\ l' = l + 1
+\* events that carry no contract meaning (twin declarations, numeric guards, kernel probes, thread blocks)
+Skip == /\ (Is("end") \/ Is("note") \/ Is("cmp") \/ Is("cmp_poly") \/ Is("kernel")
+             \/ Is("par_begin") \/ Is("par_end")) /\ l' = l + 1
         /\ e' = [ev |-> Cur.ev, id |-> 0, line |-> 0] /\ UNCHANGED <<st, scr>>
 
 New == /\ Is("new") /\ l' = l + 1 /\ e' = Cur /\ UNCHANGED scr
